@@ -484,6 +484,20 @@ fn orphans(b: &Built, g: &mut Inner, st: &mut State, w: &Which) {
 // C05: an upstream Error reaches the sink once, unchanged
 // ---------------------------------------------------------------------------------------------
 
+/// is event `i` nested inside the downward Error of another upstream edge?
+fn nested_in_other_failure(g: &Inner, i: usize) -> bool {
+    let e = g.events[i].edge;
+    let mut p = g.events[i].parent;
+    while p >= 0 {
+        let x = &g.events[p as usize];
+        if x.dir == Dir::Down && x.kind == Kind::Error && x.edge != e && matches!(g.edges[x.edge as usize].role, Role::Puppet(..)) {
+            return true;
+        }
+        p = x.parent;
+    }
+    false
+}
+
 fn c05_step(b: &Built, g: &mut Inner, st: &mut State, from: usize, to: usize) {
     if matches!(b.topo, Topo::ForEach) {
         return;
@@ -495,6 +509,13 @@ fn c05_step(b: &Built, g: &mut Inner, st: &mut State, from: usize, to: usize) {
             continue;
         }
         let owner = g.edges[e].owner;
+        // a failure that arrives from inside the delivery of another upstream's failure (a member
+        // told to stop makes a sibling fail): the output is already failing, it is no longer live,
+        // and the sink is owed the first error only
+        if nested_in_other_failure(g, i) {
+            bump(st, "c05.error-during-another-failure");
+            continue;
+        }
         let targets: Vec<EdgeId> = if matches!(b.topo, Topo::Share(_)) {
             probe_edges(g)
                 .into_iter()
@@ -1055,8 +1076,25 @@ fn c08_core(g: &mut Inner, st: &mut State, op: &str, se: EdgeId, mem: Vec<Option
     }
     // (b) every datum exactly once, in arrival order
     let edges: Vec<EdgeId> = mem.iter().flatten().map(|m| m.edge).collect();
+    let all: Vec<usize> = emitted_while_open(g, &edges, &ts);
+    // once a member has failed the output is failing: what the other members still emit before
+    // they are told to stop (from inside the stop of a sibling) is not owed to the sink any more;
+    // it may be delivered (all of it) or dropped (all of it)
+    let fail_t = mem
+        .iter()
+        .flatten()
+        .filter(|m| m.t.dterm_ev >= 0 && g.events[m.t.dterm_ev as usize].kind == Kind::Error)
+        .map(|m| m.t.dterm_in)
+        .min()
+        .unwrap_or(INF);
+    let owed: Vec<usize> = all.iter().copied().filter(|i| g.events[*i].t_in < fail_t).collect();
+    let n_got = evs(g, se, Dir::Down, &[Kind::Data]).len();
+    let use_all = owed.len() != all.len() && n_got == all.len();
+    if owed.len() != all.len() {
+        bump(st, "c08.data-while-failing");
+    }
     let exp: Vec<(usize, Val)> =
-        emitted_while_open(g, &edges, &ts).into_iter().map(|i| (i, g.events[i].val)).collect();
+        (if use_all { all } else { owed }).into_iter().map(|i| (i, g.events[i].val)).collect();
     check_data_sequence(g, st, "C08", &op, se, &exp, "not-the-arrival-order-union");
     // (c) pulls
     check_pull_fanout(g, st, "C08", &op, se, &mem, from, to);
